@@ -185,12 +185,10 @@ def _run_case(case, st):
             argv = ref_cmdline(data, False)
             if argv:
                 base = os.path.basename(argv[0])
-                if base.startswith(kn):
-                    if len(kn) >= 15:
-                        exp = base
-                        may = {base}
-                    else:
-                        may = {kn, base}     # 15 bytes but fewer characters: extension not required
+                if os.fsencode(base).startswith(comm):
+                    # the kernel cuts at 15 BYTES (possibly in the middle of a multi-byte character)
+                    exp = base
+                    may = {base}
         chk("value", got, got[0] == "ok" and got[1] in may, sorted(may))
         if state == "zombie":
             p.zombie = False
